@@ -201,24 +201,27 @@ theorem hsetConn_other (w : HWorld) (i j : Nat) (c : HConn) (h : j ≠ i) : (w.s
 @[simp] theorem addToSafe_nil (w : HWorld) (ch : List Ref) : addToSafe w ch [] = w := rfl
 
 /-- the dict object a good-mode open creates for connection `i` from the dict object `arg` -/
-def goodOwnDict (w : HWorld) (arg : Ref) (classic : Bool) : HDict :=
-  if classic then ((w.dicts .dflt).update (w.dicts arg)).update slaveDict
-  else (w.dicts .dflt).update (w.dicts arg)
+def goodOwnDict (cs : Bool) (w : HWorld) (arg : Ref) (classic : Bool) : HDict :=
+  if classic then
+    (if cs then ((w.dicts .dflt).update (w.dicts arg)).freezeSafe w.dfltSet
+     else (w.dicts .dflt).update (w.dicts arg)).update slaveDict
+  else (if cs then ((w.dicts .dflt).update (w.dicts arg)).freezeSafe w.dfltSet
+        else (w.dicts .dflt).update (w.dicts arg))
 
-theorem openConn_good_conns (w : HWorld) (i : Nat) (arg : Ref) (classic : Bool) (k : Nat) :
-    (openConn Modes.good w i arg classic).conns k = if k = i then .live [.own i] else w.conns k := by
+theorem openConn_good_conns (kp cs : Bool) (w : HWorld) (i : Nat) (arg : Ref) (classic : Bool) (k : Nat) :
+    (openConn (Modes.good kp cs) w i arg classic).conns k = if k = i then .live [.own i] else w.conns k := by
   cases classic <;> simp [openConn, Modes.good, initConn, headRef, HWorld.setConn]
 
-theorem openConn_good_dfltSet (w : HWorld) (i : Nat) (arg : Ref) (classic : Bool) :
-    (openConn Modes.good w i arg classic).dfltSet = w.dfltSet := by
+theorem openConn_good_dfltSet (kp cs : Bool) (w : HWorld) (i : Nat) (arg : Ref) (classic : Bool) :
+    (openConn (Modes.good kp cs) w i arg classic).dfltSet = w.dfltSet := by
   cases classic <;> simp [openConn, Modes.good, initConn, headRef]
 
-theorem openConn_good_servers (w : HWorld) (i : Nat) (arg : Ref) (classic : Bool) :
-    (openConn Modes.good w i arg classic).servers = w.servers := by
+theorem openConn_good_servers (kp cs : Bool) (w : HWorld) (i : Nat) (arg : Ref) (classic : Bool) :
+    (openConn (Modes.good kp cs) w i arg classic).servers = w.servers := by
   cases classic <;> simp [openConn, Modes.good, initConn, headRef]
 
-theorem openConn_good_dicts (w : HWorld) (i : Nat) (arg : Ref) (classic : Bool) (r : Ref) :
-    (openConn Modes.good w i arg classic).dicts r = if r = .own i then goodOwnDict w arg classic else w.dicts r := by
+theorem openConn_good_dicts (kp cs : Bool) (w : HWorld) (i : Nat) (arg : Ref) (classic : Bool) (r : Ref) :
+    (openConn (Modes.good kp cs) w i arg classic).dicts r = if r = .own i then goodOwnDict cs w arg classic else w.dicts r := by
   cases classic <;> by_cases hr : r = .own i <;>
     simp [openConn, Modes.good, initConn, headRef, goodOwnDict, HWorld.setDict, hr]
 
@@ -253,11 +256,31 @@ def OwnInv (w : HWorld) : Prop :=
 theorem ownInv_init : OwnInv HWorld.init := by
   intro i ch h; simp [HWorld.init] at h
 
+/-! constructing a server touches no connection slot, not the default set, and no dict object but `srv k` -/
+theorem newServer_conns (m : Modes) (w : HWorld) (k : Nat) (d : Option Nat) :
+    (hstep m w (.newServer k d)).conns = w.conns := by
+  cases hs : w.servers k <;> cases d <;> cases hk : m.serverKeepsGiven <;> simp [hstep, hs, hk]
+
+theorem newServer_dfltSet (m : Modes) (w : HWorld) (k : Nat) (d : Option Nat) :
+    (hstep m w (.newServer k d)).dfltSet = w.dfltSet := by
+  cases hs : w.servers k <;> cases d <;> cases hk : m.serverKeepsGiven <;> simp [hstep, hs, hk]
+
+theorem newServer_dicts (m : Modes) (w : HWorld) (k : Nat) (d : Option Nat) (r : Ref) (hr : r ≠ .srv k) :
+    (hstep m w (.newServer k d)).dicts r = w.dicts r := by
+  cases hs : w.servers k <;> cases d <;> cases hk : m.serverKeepsGiven <;>
+    simp [hstep, hs, hk, setDict_other _ _ _ _ hr]
+
+theorem newServer_servers (m : Modes) (w : HWorld) (k : Nat) (d : Option Nat) (x : Nat) :
+    (hstep m w (.newServer k d)).servers x
+      = if x = k then (match w.servers k with | none => some (serverRef m k d) | some r => some r) else w.servers x := by
+  cases hs : w.servers k <;> cases d <;> cases hk : m.serverKeepsGiven <;> by_cases hx : x = k <;>
+    simp [hstep, hs, hk, hx]
+
 /-- the slot of connection `j` after one good-mode event -/
-theorem hstep_good_conns (w : HWorld) (e : HEvent) (j : Nat) :
-    (hstep Modes.good w e).conns j = w.conns j
-    ∨ (w.conns j = .fresh ∧ (hstep Modes.good w e).conns j = .live [.own j])
-    ∨ (∃ ch, w.conns j = .live ch ∧ (hstep Modes.good w e).conns j = .closed ch) := by
+theorem hstep_good_conns (kp cs : Bool) (w : HWorld) (e : HEvent) (j : Nat) :
+    (hstep (Modes.good kp cs) w e).conns j = w.conns j
+    ∨ (w.conns j = .fresh ∧ (hstep (Modes.good kp cs) w e).conns j = .live [.own j])
+    ∨ (∃ ch, w.conns j = .live ch ∧ (hstep (Modes.good kp cs) w e).conns j = .closed ch) := by
   cases e with
   | «open» i d classic =>
     cases hw : w.conns i with
@@ -278,7 +301,7 @@ theorem hstep_good_conns (w : HWorld) (e : HEvent) (j : Nat) :
   | access i => exact Or.inl rfl
   | editDict r ov => exact Or.inl rfl
   | mutDfltSet names => exact Or.inl rfl
-  | newServer k d => cases hs : w.servers k <;> exact Or.inl (by simp [hstep, hs])
+  | newServer k d => exact Or.inl (by rw [newServer_conns])
   | serverConn i k classic =>
     cases hw : w.conns i with
     | fresh =>
@@ -295,9 +318,9 @@ theorem hstep_good_conns (w : HWorld) (e : HEvent) (j : Nat) :
     | none => exact Or.inl (by simp [hstep, hs])
     | some r => cases hr : r.editable <;> exact Or.inl (by simp [hstep, hs, hr])
 
-theorem hstep_good_inv (w : HWorld) (e : HEvent) (h : OwnInv w) : OwnInv (hstep Modes.good w e) := by
+theorem hstep_good_inv (kp cs : Bool) (w : HWorld) (e : HEvent) (h : OwnInv w) : OwnInv (hstep (Modes.good kp cs) w e) := by
   intro j ch hj
-  rcases hstep_good_conns w e j with heq | ⟨_, hl⟩ | ⟨c, hlive, hc⟩
+  rcases hstep_good_conns kp cs w e j with heq | ⟨_, hl⟩ | ⟨c, hlive, hc⟩
   · rw [heq] at hj; exact h j ch hj
   · rw [hl] at hj
     rcases hj with hj | hj
@@ -308,8 +331,8 @@ theorem hstep_good_inv (w : HWorld) (e : HEvent) (h : OwnInv w) : OwnInv (hstep 
     · cases hj
     · injection hj with hj; subst hj; exact h j c (Or.inl hlive)
 
-@[simp] theorem initConn_conns (m : InitMode) (w : HWorld) (i : Nat) (arg : Ref) :
-    (initConn m w i arg).1.conns = w.conns := by
+@[simp] theorem initConn_conns (m : InitMode) (cs : Bool) (w : HWorld) (i : Nat) (arg : Ref) :
+    (initConn m cs w i arg).1.conns = w.conns := by
   cases m <;> rfl
 
 @[simp] theorem addToSafe_conns (w : HWorld) (ch : List Ref) (names : List PyStr) :
@@ -341,7 +364,7 @@ theorem hstep_conns_other (m : Modes) (w : HWorld) (e : HEvent) (j : Nat) (h : e
   | access i => rfl
   | editDict r ov => rfl
   | mutDfltSet names => rfl
-  | newServer k d => cases hs : w.servers k <;> simp [hstep, hs]
+  | newServer k d => rw [newServer_conns]
   | serverConn i k classic =>
     have hj : j ≠ i := fun x => h (by simp [HEvent.conn, x])
     cases hw : w.conns i <;> cases hs : w.servers k <;> simp [hstep, hw, hs, openConn_conns_other _ _ _ _ _ _ hj]
@@ -351,8 +374,8 @@ theorem hstep_conns_other (m : Modes) (w : HWorld) (e : HEvent) (j : Nat) (h : e
     | some r => cases hr : r.editable <;> simp [hstep, hs, hr]
 
 /-- in the good mode no fair event writes the dict object of an ESTABLISHED connection, whoever's event it is -/
-theorem hstep_good_ownDict (w : HWorld) (e : HEvent) (j : Nat) (hf : e.fair = true) (hj : w.conns j ≠ .fresh) :
-    (hstep Modes.good w e).dicts (.own j) = w.dicts (.own j) := by
+theorem hstep_good_ownDict (kp cs : Bool) (w : HWorld) (e : HEvent) (j : Nat) (hf : e.fair = true) (hj : w.conns j ≠ .fresh) :
+    (hstep (Modes.good kp cs) w e).dicts (.own j) = w.dicts (.own j) := by
   cases e with
   | «open» i d classic =>
     cases hw : w.conns i with
@@ -372,7 +395,7 @@ theorem hstep_good_ownDict (w : HWorld) (e : HEvent) (j : Nat) (hf : e.fair = tr
     | srv n => simp [hstep, setDict_other]
     | srvShared => simp [hstep, setDict_other]
   | mutDfltSet names => rfl
-  | newServer k d => cases hs : w.servers k <;> simp [hstep, hs]
+  | newServer k d => exact newServer_dicts _ w k d _ (by simp)
   | serverConn i k classic =>
     cases hw : w.conns i with
     | fresh =>
@@ -392,21 +415,72 @@ theorem hstep_good_ownDict (w : HWorld) (e : HEvent) (j : Nat) (hf : e.fair = tr
       | srv n => simp [hstep, hs, Ref.editable, setDict_other]
       | srvShared => simp [hstep, hs, Ref.editable, setDict_other]
 
-theorem hstep_good_dfltSet (w : HWorld) (e : HEvent) (hf : e.fair = true) :
-    (hstep Modes.good w e).dfltSet = w.dfltSet := by
+theorem hstep_good_dfltSet (kp cs : Bool) (w : HWorld) (e : HEvent) (hf : e.fair = true) :
+    (hstep (Modes.good kp cs) w e).dfltSet = w.dfltSet := by
   cases e with
   | «open» i d classic => cases hw : w.conns i <;> simp [hstep, hw, openConn_good_dfltSet]
   | close i => cases hw : w.conns i <;> simp [hstep, hw]
   | access i => rfl
   | editDict r ov => rfl
   | mutDfltSet names => simp [HEvent.fair] at hf
-  | newServer k d => cases hs : w.servers k <;> simp [hstep, hs]
+  | newServer k d => exact newServer_dfltSet _ w k d
   | serverConn i k classic =>
     cases hw : w.conns i <;> cases hs : w.servers k <;> simp [hstep, hw, hs, openConn_good_dfltSet]
   | editServer k ov =>
     cases hs : w.servers k with
     | none => simp [hstep, hs]
     | some r => cases hr : r.editable <;> simp [hstep, hs, hr]
+
+/-! #### servers -/
+
+/-- every server holds either the caller's dict object it was given, or the one it made for itself -/
+def SrvInv (w : HWorld) : Prop := ∀ k r, w.servers k = some r → r = .srv k ∨ ∃ d, r = .app d
+
+theorem srvInv_init : SrvInv HWorld.init := by
+  intro k r h; simp [HWorld.init] at h
+
+theorem hstep_good_servers (kp cs : Bool) (w : HWorld) (e : HEvent) (k : Nat) :
+    (hstep (Modes.good kp cs) w e).servers k = w.servers k
+    ∨ (w.servers k = none ∧ ∃ d, e = .newServer k d ∧ (hstep (Modes.good kp cs) w e).servers k = some (serverRef (Modes.good kp cs) k d)) := by
+  cases e with
+  | «open» i d classic => cases hw : w.conns i <;> simp [hstep, hw, openConn_good_servers]
+  | close i => cases hw : w.conns i <;> simp [hstep, hw]
+  | access i => exact Or.inl rfl
+  | editDict r ov => exact Or.inl rfl
+  | mutDfltSet names => exact Or.inl rfl
+  | newServer k' d =>
+    rw [newServer_servers]
+    by_cases hk : k = k'
+    · subst hk
+      cases hs : w.servers k with
+      | some r => exact Or.inl (by simp)
+      | none => exact Or.inr ⟨rfl, d, rfl, by simp⟩
+    · exact Or.inl (by simp [hk])
+  | serverConn i k' classic =>
+    cases hw : w.conns i <;> cases hs : w.servers k' <;> simp [hstep, hw, hs, openConn_good_servers]
+  | editServer k' ov =>
+    cases hs : w.servers k' with
+    | none => exact Or.inl (by simp [hstep, hs])
+    | some r => cases hr : r.editable <;> exact Or.inl (by simp [hstep, hs, hr])
+
+theorem hstep_good_srvInv (kp cs : Bool) (w : HWorld) (e : HEvent) (h : SrvInv w) : SrvInv (hstep (Modes.good kp cs) w e) := by
+  intro k r hr
+  rcases hstep_good_servers kp cs w e k with heq | ⟨_, d, _, hnew⟩
+  · rw [heq] at hr; exact h k r hr
+  · rw [hnew] at hr
+    injection hr with hr
+    subst hr
+    cases d with
+    | none => exact Or.inl (by simp [serverRef, Modes.good])
+    | some d =>
+      cases kp with
+      | true => exact Or.inr ⟨d, by simp [serverRef, Modes.good]⟩
+      | false => exact Or.inl (by simp [serverRef, Modes.good])
+
+theorem hrun_good_srvInv (kp cs : Bool) (evs : List HEvent) (w : HWorld) (h : SrvInv w) : SrvInv (hrun (Modes.good kp cs) w evs) := by
+  induction evs generalizing w with
+  | nil => exact h
+  | cons e es ih => exact ih _ (hstep_good_srvInv kp cs w e h)
 
 /-- dict objects that belong to the application: the module defaults, its settings dicts, its servers' own dicts -/
 def Ref.appOwned : Ref → Bool
@@ -416,17 +490,24 @@ def Ref.appOwned : Ref → Bool
   | .srvShared => true
   | _ => false
 
-/-- may this event, as far as its own text says, edit the application's dict object `r`?  (an edit through a server
-goes to whatever object that server holds, so it is counted for every `r`) -/
+/-- may this event edit the application's dict object `r`?  A direct edit of `r`; an edit through a server, which
+goes to whatever object that server holds — never the module defaults, and `srv k` only through server `k` (`SrvInv`);
+the construction of server `k`, which initialises `srv k`. -/
 def HEvent.mayEdit (r : Ref) : HEvent → Bool
   | .editDict r' _ => r' == r
-  | .editServer _ _ => true
+  | .editServer k _ =>
+    match r with
+    | .dflt => false
+    | .srv k' => k == k'
+    | .srvShared => false
+    | _ => true
+  | .newServer k _ => r == .srv k
   | _ => false
 
 /-- rpyc itself (connects, per-client dicts of a server, closes, requests, server construction) never writes a dict
 object of the application: only the application's own edits do -/
-theorem hstep_good_sharedDicts (w : HWorld) (e : HEvent) (r : Ref) (hr : r.appOwned = true)
-    (he : e.mayEdit r = false) : (hstep Modes.good w e).dicts r = w.dicts r := by
+theorem hstep_good_sharedDicts (kp cs : Bool) (w : HWorld) (e : HEvent) (r : Ref) (hr : r.appOwned = true)
+    (hsrv : SrvInv w) (he : e.mayEdit r = false) : (hstep (Modes.good kp cs) w e).dicts r = w.dicts r := by
   have hown : ∀ k, r ≠ .own k := by intro k h; subst h; simp [Ref.appOwned] at hr
   have htmp : ∀ k, r ≠ .tmp k := by intro k h; subst h; simp [Ref.appOwned] at hr
   cases e with
@@ -438,20 +519,31 @@ theorem hstep_good_sharedDicts (w : HWorld) (e : HEvent) (r : Ref) (hr : r.appOw
     have : r ≠ r' := by intro x; subst x; simp [HEvent.mayEdit] at he
     simp [hstep, setDict_other _ _ _ _ this]
   | mutDfltSet names => rfl
-  | newServer k d => cases hs : w.servers k <;> simp [hstep, hs]
+  | newServer k d =>
+    have hne : r ≠ .srv k := by intro x; subst x; simp [HEvent.mayEdit] at he
+    exact newServer_dicts _ w k d r hne
   | serverConn i k classic =>
     cases hw : w.conns i <;> cases hs : w.servers k <;>
       simp [hstep, hw, hs, openConn_good_dicts, hown i, setDict_other _ _ _ _ (htmp i)]
-  | editServer k ov => simp [HEvent.mayEdit] at he
+  | editServer k ov =>
+    cases hs : w.servers k with
+    | none => simp [hstep, hs]
+    | some r' =>
+      have hne : r ≠ r' := by
+        intro x; subst x
+        rcases hsrv k r hs with rfl | ⟨d, rfl⟩
+        · simp [HEvent.mayEdit] at he
+        · simp [HEvent.mayEdit] at he
+      cases hr' : r'.editable <;> simp [hstep, hs, hr', setDict_other _ _ _ _ hne]
 
 /-- **frozen**: in the good mode, an established connection's configuration survives every fair event -/
-theorem hstep_good_frozen (w : HWorld) (e : HEvent) (j : Nat) (hinv : OwnInv w) (hf : e.fair = true)
-    (hj : w.conns j ≠ .fresh) : (hstep Modes.good w e).cfgOf j = w.cfgOf j ∧ (hstep Modes.good w e).conns j ≠ .fresh := by
-  have hd := hstep_good_ownDict w e j hf hj
-  have hs := hstep_good_dfltSet w e hf
-  have key : (hstep Modes.good w e).cfgOfChain [Ref.own j] = w.cfgOfChain [Ref.own j] :=
+theorem hstep_good_frozen (kp cs : Bool) (w : HWorld) (e : HEvent) (j : Nat) (hinv : OwnInv w) (hf : e.fair = true)
+    (hj : w.conns j ≠ .fresh) : (hstep (Modes.good kp cs) w e).cfgOf j = w.cfgOf j ∧ (hstep (Modes.good kp cs) w e).conns j ≠ .fresh := by
+  have hd := hstep_good_ownDict kp cs w e j hf hj
+  have hs := hstep_good_dfltSet kp cs w e hf
+  have key : (hstep (Modes.good kp cs) w e).cfgOfChain [Ref.own j] = w.cfgOfChain [Ref.own j] :=
     cfgOfChain_congr _ _ _ (by intro r hr; simp at hr; subst hr; exact hd) hs
-  rcases hstep_good_conns w e j with heq | ⟨hfresh, _⟩ | ⟨c, hlive, hc⟩
+  rcases hstep_good_conns kp cs w e j with heq | ⟨hfresh, _⟩ | ⟨c, hlive, hc⟩
   · refine ⟨?_, by rw [heq]; exact hj⟩
     simp only [HWorld.cfgOf, heq]
     cases hw : w.conns j with
@@ -464,19 +556,19 @@ theorem hstep_good_frozen (w : HWorld) (e : HEvent) (j : Nat) (hinv : OwnInv w) 
     simp only [HWorld.cfgOf, hc, hlive, hch]
     exact key
 
-theorem hrun_good_inv (evs : List HEvent) (w : HWorld) (h : OwnInv w) : OwnInv (hrun Modes.good w evs) := by
+theorem hrun_good_inv (kp cs : Bool) (evs : List HEvent) (w : HWorld) (h : OwnInv w) : OwnInv (hrun (Modes.good kp cs) w evs) := by
   induction evs generalizing w with
   | nil => exact h
-  | cons e es ih => exact ih _ (hstep_good_inv w e h)
+  | cons e es ih => exact ih _ (hstep_good_inv kp cs w e h)
 
-theorem hrun_good_frozen (evs : List HEvent) (w : HWorld) (j : Nat) (hinv : OwnInv w)
-    (hf : ∀ e ∈ evs, e.fair = true) (hj : w.conns j ≠ .fresh) : (hrun Modes.good w evs).cfgOf j = w.cfgOf j := by
+theorem hrun_good_frozen (kp cs : Bool) (evs : List HEvent) (w : HWorld) (j : Nat) (hinv : OwnInv w)
+    (hf : ∀ e ∈ evs, e.fair = true) (hj : w.conns j ≠ .fresh) : (hrun (Modes.good kp cs) w evs).cfgOf j = w.cfgOf j := by
   induction evs generalizing w with
   | nil => rfl
   | cons e es ih =>
-    obtain ⟨h1, h2⟩ := hstep_good_frozen w e j hinv (hf e (List.mem_cons_self ..)) hj
+    obtain ⟨h1, h2⟩ := hstep_good_frozen kp cs w e j hinv (hf e (List.mem_cons_self ..)) hj
     simp only [hrun]
-    rw [ih _ (hstep_good_inv w e hinv) (fun x hx => hf x (List.mem_cons_of_mem _ hx)) h2, h1]
+    rw [ih _ (hstep_good_inv kp cs w e hinv) (fun x hx => hf x (List.mem_cons_of_mem _ hx)) h2, h1]
 
 theorem hrun_conns_other (m : Modes) (evs : List HEvent) (w : HWorld) (j : Nat) (h : ∀ e ∈ evs, e.conn ≠ some j) :
     (hrun m w evs).conns j = w.conns j := by
@@ -486,75 +578,31 @@ theorem hrun_conns_other (m : Modes) (evs : List HEvent) (w : HWorld) (j : Nat) 
     simp only [hrun]
     rw [ih _ (fun x hx => h x (List.mem_cons_of_mem _ hx)), hstep_conns_other m w e j (h e (List.mem_cons_self ..))]
 
-theorem hrun_good_sharedDicts (evs : List HEvent) (w : HWorld) (r : Ref) (hr : r.appOwned = true)
-    (he : ∀ e ∈ evs, e.mayEdit r = false) : (hrun Modes.good w evs).dicts r = w.dicts r := by
+theorem hrun_good_sharedDicts (kp cs : Bool) (evs : List HEvent) (w : HWorld) (r : Ref) (hr : r.appOwned = true)
+    (hsrv : SrvInv w) (he : ∀ e ∈ evs, e.mayEdit r = false) :
+    (hrun (Modes.good kp cs) w evs).dicts r = w.dicts r := by
   induction evs generalizing w with
   | nil => rfl
   | cons e es ih =>
     simp only [hrun]
-    rw [ih _ (fun x hx => he x (List.mem_cons_of_mem _ hx)),
-      hstep_good_sharedDicts w e r hr (he e (List.mem_cons_self ..))]
+    rw [ih _ (hstep_good_srvInv kp cs w e hsrv) (fun x hx => he x (List.mem_cons_of_mem _ hx)),
+      hstep_good_sharedDicts kp cs w e r hr hsrv (he e (List.mem_cons_self ..))]
 
-theorem hrun_good_dfltSet (evs : List HEvent) (w : HWorld) (hf : ∀ e ∈ evs, e.fair = true) :
-    (hrun Modes.good w evs).dfltSet = w.dfltSet := by
+theorem hrun_good_dfltSet (kp cs : Bool) (evs : List HEvent) (w : HWorld) (hf : ∀ e ∈ evs, e.fair = true) :
+    (hrun (Modes.good kp cs) w evs).dfltSet = w.dfltSet := by
   induction evs generalizing w with
   | nil => rfl
   | cons e es ih =>
     simp only [hrun]
-    rw [ih _ (fun x hx => hf x (List.mem_cons_of_mem _ hx)), hstep_good_dfltSet w e (hf e (List.mem_cons_self ..))]
+    rw [ih _ (fun x hx => hf x (List.mem_cons_of_mem _ hx)), hstep_good_dfltSet kp cs w e (hf e (List.mem_cons_self ..))]
 
-/-! #### servers -/
-
-/-- every server holds either the caller's dict object it was given, or the one it made for itself -/
-def SrvInv (w : HWorld) : Prop := ∀ k r, w.servers k = some r → r = .srv k ∨ ∃ d, r = .app d
-
-theorem srvInv_init : SrvInv HWorld.init := by
-  intro k r h; simp [HWorld.init] at h
-
-theorem hstep_good_servers (w : HWorld) (e : HEvent) (k : Nat) :
-    (hstep Modes.good w e).servers k = w.servers k
-    ∨ (w.servers k = none ∧ ∃ d, e = .newServer k d ∧ (hstep Modes.good w e).servers k = some (serverRef Modes.good k d)) := by
-  cases e with
-  | «open» i d classic => cases hw : w.conns i <;> simp [hstep, hw, openConn_good_servers]
-  | close i => cases hw : w.conns i <;> simp [hstep, hw]
-  | access i => exact Or.inl rfl
-  | editDict r ov => exact Or.inl rfl
-  | mutDfltSet names => exact Or.inl rfl
-  | newServer k' d =>
-    cases hs : w.servers k' with
-    | some r => exact Or.inl (by simp [hstep, hs])
-    | none =>
-      by_cases hk : k = k'
-      · subst hk; exact Or.inr ⟨hs, d, rfl, by simp [hstep, hs]⟩
-      · exact Or.inl (by simp [hstep, hs, hk])
-  | serverConn i k' classic =>
-    cases hw : w.conns i <;> cases hs : w.servers k' <;> simp [hstep, hw, hs, openConn_good_servers]
-  | editServer k' ov =>
-    cases hs : w.servers k' with
-    | none => exact Or.inl (by simp [hstep, hs])
-    | some r => cases hr : r.editable <;> exact Or.inl (by simp [hstep, hs, hr])
-
-theorem hstep_good_srvInv (w : HWorld) (e : HEvent) (h : SrvInv w) : SrvInv (hstep Modes.good w e) := by
-  intro k r hr
-  rcases hstep_good_servers w e k with heq | ⟨_, d, _, hnew⟩
-  · rw [heq] at hr; exact h k r hr
-  · rw [hnew] at hr
-    injection hr with hr
-    subst hr
-    cases d with
-    | none => exact Or.inl (by simp [serverRef, Modes.good])
-    | some d => exact Or.inr ⟨d, by simp [serverRef]⟩
-
-theorem hrun_good_srvInv (evs : List HEvent) (w : HWorld) (h : SrvInv w) : SrvInv (hrun Modes.good w evs) := by
-  induction evs generalizing w with
-  | nil => exact h
-  | cons e es ih => exact ih _ (hstep_good_srvInv w e h)
+/-! #### servers' own dict objects -/
 
 /-- one good-mode event leaves server `k`'s own dict object alone unless it is an edit of that very object: a direct
 one, or one through a server — and the only server holding `srv k` is server `k` -/
-theorem hstep_good_serverDict (w : HWorld) (e : HEvent) (k : Nat) (hinv : SrvInv w)
-    (h1 : ∀ ov, e ≠ .editDict (.srv k) ov) (h2 : ∀ ov, e ≠ .editServer k ov) :
-    (hstep Modes.good w e).dicts (.srv k) = w.dicts (.srv k) := by
+theorem hstep_good_serverDict (kp cs : Bool) (w : HWorld) (e : HEvent) (k : Nat) (hinv : SrvInv w)
+    (h1 : ∀ ov, e ≠ .editDict (.srv k) ov) (h2 : ∀ ov, e ≠ .editServer k ov) (h3 : ∀ d, e ≠ .newServer k d) :
+    (hstep (Modes.good kp cs) w e).dicts (.srv k) = w.dicts (.srv k) := by
   cases e with
   | editServer k' ov =>
     have hk : k' ≠ k := fun x => h2 ov (by rw [x])
@@ -573,19 +621,23 @@ theorem hstep_good_serverDict (w : HWorld) (e : HEvent) (k : Nat) (hinv : SrvInv
   | close i => cases hw : w.conns i <;> simp [hstep, hw]
   | access i => rfl
   | mutDfltSet names => rfl
-  | newServer k' d => cases hs : w.servers k' <;> simp [hstep, hs]
+  | newServer k' d =>
+    have hne : Ref.srv k ≠ .srv k' := by intro x; injection x with x; exact h3 d (by rw [x])
+    exact newServer_dicts _ w k' d _ hne
   | serverConn i k' classic =>
     cases hw : w.conns i <;> cases hs : w.servers k' <;> simp [hstep, hw, hs, openConn_good_dicts, setDict_other]
 
-theorem hrun_good_serverDict (evs : List HEvent) (w : HWorld) (k : Nat) (hinv : SrvInv w)
-    (h1 : ∀ e ∈ evs, ∀ ov, e ≠ .editDict (.srv k) ov) (h2 : ∀ e ∈ evs, ∀ ov, e ≠ .editServer k ov) :
-    (hrun Modes.good w evs).dicts (.srv k) = w.dicts (.srv k) := by
+theorem hrun_good_serverDict (kp cs : Bool) (evs : List HEvent) (w : HWorld) (k : Nat) (hinv : SrvInv w)
+    (h1 : ∀ e ∈ evs, ∀ ov, e ≠ .editDict (.srv k) ov) (h2 : ∀ e ∈ evs, ∀ ov, e ≠ .editServer k ov)
+    (h3 : ∀ e ∈ evs, ∀ d, e ≠ .newServer k d) :
+    (hrun (Modes.good kp cs) w evs).dicts (.srv k) = w.dicts (.srv k) := by
   induction evs generalizing w with
   | nil => rfl
   | cons e es ih =>
     simp only [hrun]
-    rw [ih _ (hstep_good_srvInv w e hinv) (fun x hx => h1 x (List.mem_cons_of_mem _ hx))
-        (fun x hx => h2 x (List.mem_cons_of_mem _ hx)),
-      hstep_good_serverDict w e k hinv (h1 e (List.mem_cons_self ..)) (h2 e (List.mem_cons_self ..))]
+    rw [ih _ (hstep_good_srvInv kp cs w e hinv) (fun x hx => h1 x (List.mem_cons_of_mem _ hx))
+        (fun x hx => h2 x (List.mem_cons_of_mem _ hx)) (fun x hx => h3 x (List.mem_cons_of_mem _ hx)),
+      hstep_good_serverDict kp cs w e k hinv (h1 e (List.mem_cons_self ..)) (h2 e (List.mem_cons_self ..))
+        (h3 e (List.mem_cons_self ..))]
 
 end Rpyc.Policy
